@@ -34,6 +34,7 @@ from pyvc.values import NONE, V, VBool, VExt, VInt, VRef, VSeq, VStr, VTuple, VU
 from pyvc.verify import p_unk
 from contracts import etree_model as ET
 from contracts.etree_model import CNode
+from contracts.symlist import mentions_over, register_over
 
 EXTR = "sharepoint2text/parsing/extractors/"
 DOCX = EXTR + "ms_modern/docx_extractor.py"
@@ -189,6 +190,7 @@ class Run:
         ET.install(self.reg)
         install_str_models(self.reg)
         install(self.reg)
+        register_over()
         self.ex = C13Executor(self.mod, self.reg, Universe(repo))
         self.ex.oid_prefix = "bounded"
 
@@ -325,6 +327,12 @@ def compare(tally, st_pc, got, want, shape, feats):
     ps = path_status(st_pc) if st_pc else "sat"
     if ps == "unsat":
         return
+    if mentions_over(st_pc):
+        # the path went through an over-approximation (unmodelled call, loop cut without invariant): what it returned is not
+        # what the real code returns -> nothing is decided here, the native replayer runs the real code
+        for k in CLAUSES[1:]:
+            tally.record(k, "unknown", shape, feats, "over-approximated path (unmodelled construct); decided by native replay")
+        return
     if ps == "unknown":
         for k in CLAUSES[1:]:
             tally.record(k, "unknown", shape, feats, "path condition undecided (solver timeout)")
@@ -377,10 +385,12 @@ def run_walker(prefix, loc, shapes, run_one):
                 tally.record(k, "unknown", doc, feats, f"OUT-OF-SUBSET {e}"[:200])
             continue
         feas = [r for r in raises if _feasible(r[0])]
-        tally.record(CLAUSES[0], "refuted" if feas else "proved", doc, feats, "an exception can escape" if feas else "")
+        definite = [r for r in feas if not mentions_over(r[0])]
+        tally.record(CLAUSES[0], "refuted" if definite else ("unknown" if feas else "proved"), doc, feats,
+                     "an exception can escape" if definite else ("exception only on an over-approximated path" if feas else ""))
         if not rets:
             for k in CLAUSES[1:]:
-                tally.record(k, "refuted", doc, feats, "no normal outcome")
+                tally.record(k, "refuted" if definite else "unknown", doc, feats, "no normal outcome")
         for (pc, got, want) in rets:
             compare(tally, pc, got, want, doc, feats)
     return {"obligations": tally.obligations(loc), "undecided": undecided}
@@ -559,6 +569,18 @@ def install_str_models(reg):
             # " ".join(s.split()) == strip + collapse whitespace runs (ASSUMED, checked natively by the replayer)
             return [(st, VStr(mk_wssub(mk_strip(it.t.arg(0)))))]
         return [(st, VStr(z3.String(fresh_name("join"))))]
+    def m_recompile(ex, st, a, kw, node):
+        """re.compile(r"\\s+") is the whitespace-run pattern of the model (sub(" ", s) = WSSUB); other patterns are not modelled here"""
+        if len(a) == 1 and not kw and isinstance(a[0], VStr) and a[0].const() == "\\s+":
+            return [(st, VExt("RegexWS"))]
+        return ex.havoc_call(st, "re.compile", [], node)
+
+    def m_resub(ex, st, a, kw, node):
+        if len(a) == 3 and not kw and all(isinstance(x, VStr) for x in a) and a[0].const() == "\\s+" and a[1].const() == " ":
+            return [(st, VStr(mk_wssub(z3.simplify(a[2].t))))]
+        return ex.havoc_call(st, "re.sub", [], node)
+    reg.ext_models.setdefault("re.compile", m_recompile)
+    reg.ext_models.setdefault("re.sub", m_resub)
     reg.ext_models["str.split"] = m_split
     reg.ext_models["str.join"] = m_join
     reg.method_models[("RegexWS", "sub")] = lambda ex, st, o, a, k, n: [(st, VStr(mk_wssub(z3.simplify(a[1].t))))] if len(a) == 2 and isinstance(a[0], VStr) and a[0].const() == " " and isinstance(a[1], VStr) else ex.havoc_call(st, "re.sub", [], n)
@@ -694,7 +716,6 @@ def feed_events(run, st, me, cls, events):
 def w_html(repo, tier):
     def inst(reg):
         install_str_models(reg)
-        reg.module_consts[(HTML, "_RE_WS")] = VExt("RegexWS")
         reg.method_models[("SuperProxy", "__init__")] = lambda ex, st, o, a, k, n: [(st, NONE)]
         reg.add(FnContract(target=f"{HTML}::_HtmlTextExtractor._format_table_as_text", params=[("self", p_unk()), ("table_data", p_unk())],
                            assumed=True, returns=lambda c: VStr(z3.String(fresh_name("table_text"))), note="text rendering of a table (C02)"))
@@ -856,10 +877,12 @@ def run_sheets(prefix, loc, shapes, run_one):
                 tally.record(k, "unknown", sh, feats, f"OUT-OF-SUBSET {e}"[:200])
             continue
         feas = [r for r in raises if _feasible(r[0])]
-        tally.record(CLAUSES[0], "refuted" if feas else "proved", sh, feats, "an exception can escape" if feas else "")
+        definite = [r for r in feas if not mentions_over(r[0])]
+        tally.record(CLAUSES[0], "refuted" if definite else ("unknown" if feas else "proved"), sh, feats,
+                     "an exception can escape" if definite else ("exception only on an over-approximated path" if feas else ""))
         if not rets:
             for k in CLAUSES[1:]:
-                tally.record(k, "refuted", sh, feats, "no normal outcome")
+                tally.record(k, "refuted" if definite else "unknown", sh, feats, "no normal outcome")
         for (pc, got, want) in rets:
             compare(tally, pc, got, want, sh, feats)
     return {"obligations": tally.obligations(loc)}
@@ -1226,10 +1249,12 @@ def w_rtf(repo, tier):
                 tally.record(k, "unknown", shape, feats, f"OUT-OF-SUBSET {e}"[:200])
             continue
         feas = [r for r in raises if _feasible(r[0].pc)]
-        tally.record(CLAUSES[0], "refuted" if feas else "proved", shape, feats, "an exception can escape" if feas else "")
+        definite = [r for r in feas if not mentions_over(r[0].pc)]
+        tally.record(CLAUSES[0], "refuted" if definite else ("unknown" if feas else "proved"), shape, feats,
+                     "an exception can escape" if definite else ("exception only on an over-approximated path" if feas else ""))
         if not rets:
             for k in CLAUSES[1:]:
-                tally.record(k, "refuted", shape, feats, "no normal outcome")
+                tally.record(k, "refuted" if definite else "unknown", shape, feats, "no normal outcome")
         for s in rets:
             compare(tally, s.pc, to_py(s, s.obj(me.ref).data["tables"]), want, shape, feats)
     return {"obligations": tally.obligations(RTF)}
@@ -1289,7 +1314,8 @@ def w_iter(repo, tier):
                         else:
                             got.append(None)
                     ok = ok and got == want
-            tally.record(list(tally.c)[0], "proved" if ok else "refuted", shape, [], "yielded tables differ from the stored ones")
+            over = any(mentions_over(s_.pc) for (s_, _v) in rets) or any(mentions_over(s_.pc) for (s_, _e) in raises)
+            tally.record(list(tally.c)[0], "proved" if ok else ("unknown" if over else "refuted"), shape, [], "yielded tables differ from the stored ones")
     return {"obligations": tally.obligations(DTYPES)}
 
 
